@@ -369,6 +369,11 @@ impl Ctx {
     pub fn thorough(&self) -> bool {
         self.tier_thorough
     }
+    /// witness runs only establish that hypotheses are satisfiable: groups whose obligations have
+    /// no hypotheses (concrete facts) need not be re-run for them
+    pub fn is_witness_run(&self) -> bool {
+        matches!(self.mode, Mode::Witness)
+    }
     /// skip expensive construction of obligations that are not the replay target
     pub fn wants(&self, id_prefix: &str) -> bool {
         match &self.mode {
@@ -384,6 +389,13 @@ impl Ctx {
             return;
         }
         let r = std::panic::catch_unwind(std::panic::AssertUnwindSafe(|| f(self)));
+        if r.is_ok() {
+            if let Mode::Replay { target } = &self.mode {
+                if target == &format!("{idp}.panic") && self.replay_result.is_none() {
+                    self.replay_result = Some((false, "the native run of this group does not panic".into()));
+                }
+            }
+        }
         if let Err(e) = r {
             let msg = if let Some(s) = e.downcast_ref::<String>() {
                 s.clone()
@@ -395,6 +407,12 @@ impl Ctx {
             // leave the arena usable
             crate::set_mode(EqMode::Decide);
             crate::set_placeholders(false);
+            if let Mode::Replay { target } = &self.mode {
+                // replay of a recorded harness panic: the same group panics on concrete values too
+                if target == &format!("{idp}.panic") {
+                    self.replay_result = Some((true, format!("native run panicked: {msg}")));
+                }
+            }
             if let Mode::Emit { .. } = self.mode {
                 self.metas.push(ObMeta {
                     id: format!("{idp}.panic"),
